@@ -48,14 +48,17 @@ def render(spec):
             k = st[0]
             if k == "state":
                 j = i
-                L.append("cnt%d = 0" % j)
+                # every module uses the SAME internal names (cnt, hid): a lookup that leaks across modules shows up
+                L.append("cnt = %d" % (0 if True else j))
                 L.append("hid%d = 3" % j)
                 L.append("export cell%d: [int...] = [0]" % j)
                 L.append("export n%d: int = %d" % (j, 10 + j))
                 L.append("export tot%d: int = 0" % j)
                 L.append("export type T%d int" % j)
-                L.append("export bump%d: fn() -> int = fn() -> int {\n\tmodify cnt%d = cnt%d + 1\n\tmodify tot%d = tot%d + 1\n\tcell%d[0] += 1\n\treturn cnt%d\n}" % (j, j, j, j, j, j, j))
-                L.append("export peek%d: fn() -> int = fn() -> int {\n\treturn cnt%d\n}" % (j, j))
+                L.append("export bump%d: fn() -> int = fn() -> int {\n\tmodify cnt = cnt + 1\n\tmodify tot%d = tot%d + 1\n\tcell%d[0] += 1\n\treturn cnt\n}" % (j, j, j, j))
+                L.append("export peek%d: fn() -> int = fn() -> int {\n\treturn cnt\n}" % j)
+                # a factory that builds its closure at CALL time (possibly while an importer's top level is running)
+                L.append("export mkpeek%d: fn() -> fn() -> int = fn() -> fn() -> int {\n\treturn fn() -> int {\n\t\treturn cnt * 100 + tot%d\n\t}\n}" % (j, j))
             elif k == "import":
                 j, form = st[1], st[2]
                 p = import_path(spec, i, j)
@@ -65,10 +68,16 @@ def render(spec):
                     tmp[0] += 1
                     L.append("import type T%d from %s\ntv%d: T%d = %d\nprint tv%d" % (j, p, tmp[0], j, 40 + j, tmp[0]))
                 else:
-                    L.append("import bump%d, peek%d, cell%d from %s" % (j, j, j, p))
+                    L.append("import bump%d, peek%d, cell%d, mkpeek%d from %s" % (j, j, j, j, p))
             elif k == "use":
                 j, form, what = st[1], st[2], st[3]
-                if form == "mod":
+                if what == "mk":
+                    tmp[0] += 1
+                    if form == "mod":
+                        L.append("k%d = %s.mkpeek%d()\nprint k%d()" % (tmp[0], mod_name(j), j, tmp[0]))
+                    else:
+                        L.append("k%d = mkpeek%d()\nprint k%d()" % (tmp[0], j, tmp[0]))
+                elif form == "mod":
                     if what == "tot":
                         L.append("print %s.tot%d" % (mod_name(j), j))
                     elif what == "cell":
@@ -102,8 +111,10 @@ def render(spec):
                     L.append("%s = 5" % mod_name(j))
                 elif kind == "assign_member":
                     L.append("%s.n%d = 6" % (mod_name(j), j))
-                elif kind == "opassign_member":
-                    L.append("%s.n%d += 1" % (mod_name(j), j))
+                elif kind.startswith("opassign_member"):
+                    sym = {"opassign_member": "+", "opassign_member_sub": "-", "opassign_member_mul": "*", "opassign_member_div": "/",
+                           "opassign_member_mod": "%"}[kind]
+                    L.append("%s.n%d %s= 1" % (mod_name(j), j, sym))
                 elif kind == "assign_fn_member":
                     L.append("%s.bump%d = fn() -> int {\n\treturn 0\n}" % (mod_name(j), j))
         L.append('print "leave %s"' % mod_name(i))
@@ -137,6 +148,8 @@ def render(spec):
                     out.append(str(s.cnt))
                 elif what in ("peek", "tot"):
                     out.append(str(s.cnt))
+                elif what == "mk":
+                    out.append(str(s.cnt * 100 + s.cnt))
                 else:
                     out.append(str(s.cell))
             elif k == "say":
@@ -167,7 +180,9 @@ def _neg_line(spec, i):
             p = import_path(spec, i, j)
             return {"import_hidden": "import hid%d from %s" % (j, p), "import_absent": "import nope%d from %s" % (j, p),
                     "dot_hidden": "print %s.hid%d" % (mod_name(j), j), "assign_module": "%s = 5" % mod_name(j),
-                    "assign_member": "%s.n%d = 6" % (mod_name(j), j), "opassign_member": "%s.n%d += 1" % (mod_name(j), j),
+                    "assign_member": "%s.n%d = 6" % (mod_name(j), j), "opassign_member": "%s.n%d += 1" % (mod_name(j), j), "opassign_member_sub": "%s.n%d -= 1" % (mod_name(j), j),
+                    "opassign_member_mul": "%s.n%d *= 1" % (mod_name(j), j), "opassign_member_div": "%s.n%d /= 1" % (mod_name(j), j),
+                    "opassign_member_mod": "%s.n%d %%= 1" % (mod_name(j), j),
                     "assign_fn_member": "%s.bump%d = fn() -> int {" % (mod_name(j), j)}[kind]
     return ""
 
@@ -214,13 +229,13 @@ def generate(rng, max_mods=5, negative=False):
                 imported.setdefault(j, []).append(f)
                 if f != "type" and not bare[j]:
                     for _ in range(rng.range(0, 2)):
-                        stmts.append(["use", j, f, rng.choice(["bump", "bump", "peek", "cell"] + (["tot", "tot"] if f == "mod" else []))])
+                        stmts.append(["use", j, f, rng.choice(["bump", "bump", "peek", "cell", "mk"] + (["tot", "tot"] if f == "mod" else []))])
             # interleave uses of earlier imports
             usable = sorted(j for j in imported if not bare[j] and [f for f in imported[j] if f != "type"])
             if usable and rng.chance(1, 2):
                 j = rng.choice(usable)
                 f = rng.choice([f for f in imported[j] if f != "type"])
-                stmts.append(["use", j, f, rng.choice(["bump", "peek", "cell"] + (["tot"] if f == "mod" else []))])
+                stmts.append(["use", j, f, rng.choice(["bump", "peek", "cell", "mk"] + (["tot"] if f == "mod" else []))])
         # a function exported by i that reaches into an imported module
         modform = [j for j, fs in imported.items() if "mod" in fs and not bare[j]]
         if modform and rng.chance(1, 2) and ["state"] in stmts:
@@ -245,7 +260,8 @@ def generate(rng, max_mods=5, negative=False):
             forms = spec["mods"][i]["imported"][str(j)]
             kinds = ["import_hidden", "import_absent"]
             if "mod" in forms:
-                kinds += ["dot_hidden", "assign_module", "assign_member", "opassign_member", "assign_fn_member"]
+                kinds += ["dot_hidden", "assign_module", "assign_member", "opassign_member", "assign_fn_member", "opassign_member_sub",
+                          "opassign_member_mul", "opassign_member_div", "opassign_member_mod"]
             spec["mods"][i]["stmts"].append(["neg", rng.choice(kinds), j])
     for m in spec["mods"]:
         m.pop("imported", None)
@@ -283,7 +299,7 @@ def valid(spec):
             elif st[0] == "neg":
                 if not any(s[1] == st[2] for s in seen):
                     return False
-                if st[1] in ("dot_hidden", "assign_module", "assign_member", "opassign_member", "assign_fn_member") and (st[2], "mod") not in seen:
+                if (st[1] in ("dot_hidden", "assign_module", "assign_member", "assign_fn_member") or st[1].startswith("opassign_member")) and (st[2], "mod") not in seen:
                     return False
         if not state and any(s[0] in ("defvia",) for s in m["stmts"]):
             return False
